@@ -314,36 +314,49 @@ func c17envLattice(c *core.Ctx, base string) {
 		}
 	})
 	layerVal := []string{"explicit", "osenv", "dotenv1", "dotenv2"}
-	for mask := 1; mask < 16; mask++ {
+	// every layer leaves V undefined (0), defines it (1) or defines it as the empty string (2): a variable defined
+	// empty is defined, and wins over the layers below it like any other value
+	for code := 1; code < 81; code++ {
+		var st [4]int
+		for i, x := 0, code; i < 4; i, x = i+1, x/3 {
+			st[i] = x % 3
+		}
+		valOf := func(i int) string {
+			if st[i] == 1 {
+				return layerVal[i]
+			}
+			return ""
+		}
 		for oi, ord := range orders {
 			for ref := 0; ref < 2; ref++ { // 0: observe V itself; 1: observe W=${V} written in .env #2
-				mask, oi, ord, ref := mask, oi, ord, ref
-				id := fmt.Sprintf("env/m%d/o%d/r%d", mask, oi, ref)
+				code, st, oi, ord, ref := code, st, oi, ord, ref
+				id := fmt.Sprintf("env/s%d%d%d%d/o%d/r%d", st[0], st[1], st[2], st[3], oi, ref)
+				_ = code
 				c.Do(id, func() core.Outcome {
 					scratchSeq++
 					wd := filepath.Join(base, fmt.Sprintf("e%d", scratchSeq))
 					os.MkdirAll(wd, 0o755)
 					defer os.RemoveAll(wd)
-					doc := "services:\n  s:\n    image: i\n    labels:\n      v: \"${V}\"\n      w: \"${W}\"\n"
+					doc := "services:\n  s:\n    image: i\n    labels:\n      v: \"${V-unset}\"\n      w: \"${W-unset}\"\n"
 					os.WriteFile(filepath.Join(wd, "compose.yaml"), []byte(doc), 0o644)
 					e1, e2 := "U1=1\n", "U2=2\n"
-					if mask&4 != 0 {
-						e1 += "V=dotenv1\n"
+					if st[2] != 0 {
+						e1 += "V=" + valOf(2) + "\n"
 					}
-					if mask&8 != 0 {
-						e2 += "V=dotenv2\n"
+					if st[3] != 0 {
+						e2 += "V=" + valOf(3) + "\n"
 					}
 					if ref == 1 {
-						e2 = "W=ref-${V}\n" + e2 // references V before (possibly) defining it itself
+						e2 = "W=ref-${V-unset}\n" + e2 // references V before (possibly) defining it itself
 					}
 					os.WriteFile(filepath.Join(wd, "one.env"), []byte(e1), 0o644)
 					os.WriteFile(filepath.Join(wd, "two.env"), []byte(e2), 0o644)
 					var explicit []string
-					if mask&1 != 0 {
-						explicit = []string{"V=explicit"}
+					if st[0] != 0 {
+						explicit = []string{"V=" + valOf(0)}
 					}
-					if mask&2 != 0 {
-						os.Setenv("V", "osenv")
+					if st[1] != 0 {
+						os.Setenv("V", valOf(1))
 						defer os.Unsetenv("V")
 					}
 					avail := []cli.ProjectOptionsFn{cli.WithEnv(explicit), cli.WithOsEnv,
@@ -357,24 +370,24 @@ func c17envLattice(c *core.Ctx, base string) {
 					if err != nil {
 						return core.Outcome{Class: "err", Sample: sample, Viol: &core.Violation{Key: "env:spurious-error", Msg: id + ": " + err.Error()}}
 					}
-					want := ""
+					want := "unset"
 					for _, i := range []int{0, 1, 3, 2} { // explicit > OS > .env #2 > .env #1
-						if mask&(1<<i) != 0 {
-							want = layerVal[i]
+						if st[i] != 0 {
+							want = valOf(i)
 							break
 						}
 					}
 					if ref == 0 {
 						if got := p.Services["s"].Labels["v"]; got != want {
-							return core.Outcome{Class: got, Sample: sample, Viol: &core.Violation{Key: "env:wrong-precedence", Msg: fmt.Sprintf("%s: ${V} = %q, expected %q (explicit > OS > .env #2 > .env #1)", id, got, want)}}
+							return core.Outcome{Class: got, Sample: sample, Viol: &core.Violation{Key: "env:wrong-precedence", Msg: fmt.Sprintf("%s: ${V-unset} = %q, expected %q (explicit > OS > .env #2 > .env #1; a variable defined empty is defined)", id, got, want)}}
 						}
-						return core.Outcome{Class: fmt.Sprintf("m%d:%s", mask, want), Sample: sample}
+						return core.Outcome{Class: fmt.Sprintf("s%v:%s", st, want), Sample: sample}
 					}
-					// W=ref-${V} in .env #2 may reference the variables above it: explicit, OS, .env #1
-					wantRef := ""
+					// W=ref-${V-unset} in .env #2 may reference the variables above it: explicit, OS, .env #1
+					wantRef := "unset"
 					for i := 0; i < 3; i++ {
-						if mask&(1<<i) != 0 {
-							wantRef = layerVal[i]
+						if st[i] != 0 {
+							wantRef = valOf(i)
 							break
 						}
 					}
@@ -387,18 +400,18 @@ func c17envLattice(c *core.Ctx, base string) {
 						}
 						return -1
 					}
-					if mask&1 != 0 && posOf(0) > posOf(3) {
+					if st[0] != 0 && posOf(0) > posOf(3) {
 						// explicit variables supplied after the .env files were read cannot be referenced by them: not asserted
 						return core.Outcome{Class: "open", Trivial: true}
 					}
-					if mask&7 == 0 {
+					if st[0] == 0 && st[1] == 0 && st[2] == 0 {
 						// V defined only later in the same file: not "above" -> nothing asserted
 						return core.Outcome{Class: "open", Trivial: true}
 					}
 					if got != "ref-"+wantRef {
-						return core.Outcome{Class: got, Sample: sample, Viol: &core.Violation{Key: "env:reference-precedence", Msg: fmt.Sprintf("%s: W (written ref-${V} in .env #2) = %q, expected %q", id, got, "ref-"+wantRef)}}
+						return core.Outcome{Class: got, Sample: sample, Viol: &core.Violation{Key: "env:reference-precedence", Msg: fmt.Sprintf("%s: W (written ref-${V-unset} in .env #2) = %q, expected %q", id, got, "ref-"+wantRef)}}
 					}
-					return core.Outcome{Class: fmt.Sprintf("ref/m%d:%s", mask, got), Sample: sample}
+					return core.Outcome{Class: fmt.Sprintf("ref/s%v:%s", st, got), Sample: sample}
 				})
 			}
 		}
